@@ -317,6 +317,13 @@ def run(prop, rep, want):
                         ha = [s_[1] for s_ in w.get("steps", []) if s_[0] == v["pc"]]
                         hb = [s_[1] for s_ in w2.get("steps", []) if s_[0] == v["pc"]]
                         confirmed = bool(ha and hb and ha[0] != hb[0])
+                    if v["kind"] == "store-slot-depends-on-path":
+                        # the Rust walk along both decision lists must reach the Store with
+                        # different numbers of locals
+                        w2 = qv.req(op="walk", h=occ["h"], fid=occ["fid"], decisions=v["decisions_b"])
+                        la = [s_[2] for s_ in w.get("steps", []) if s_[0] == v["pc"]]
+                        lb = [s_[2] for s_ in w2.get("steps", []) if s_[0] == v["pc"]]
+                        confirmed = bool(la and lb and la[-1] != lb[-1])
                     if confirmed:
                         rep.violation("%s:%s" % (occ["source"], v["kind"]),
                                       "%s: %s at pc %d (h=%d, l=%d) along branch decisions %s" % (
